@@ -20,6 +20,8 @@ def plan(tier, seed):
                                                                     "api.ParquetFile.info"]))
     jobs.append(ch("C17", "vf/pyshim/h_c06.py", "h_slice_state", t, ["api.ParquetFile.__getitem__",
                                                                     "api.ParquetFile.__setstate__"]))
+    jobs.append(dict(name="C17-lemma-find-type", kind="pyfunc", timeout=400,
+                     payload=dict(func="vf.pyshim.lemma_types:find_type_roundtrip")))
     extra = dict(
         explanation="The real ParquetFile._dtypes runs under CrossHair (z3) on a handle built from real schema and "
                     "row-group thrift objects whose row counts, NULL counts and statistics state (absent / without "
